@@ -4,7 +4,11 @@ Gas machine (C26). Transcribed from
   fuel-vm/src/interpreter/flow.rs           PrepareCallCtx::prepare_call (gas part), RetCtx::return_from_context (gas part)
   fuel-tx/.../consensus_parameters/gas.rs   DependentCost::{base, resolve, resolve_without_base}
   fuel-vm/src/interpreter/executors/main.rs run_program (gas_used)
-and the per-opcode charge schedule evaluator built on the generated table `Gen.opcodeCharge`.
+  fuel-tx/.../consensus_parameters/gas.rs   impl GasCostsValues (getters over V1 … V7), via the generated `Gen.gasGetters`
+  fuel-vm/src/interpreter/storage.rs        storage_read_slot / storage_write_slot / storage_clear_slot_range (charges)
+  fuel-vm/src/interpreter/{flow,blockchain,blob}.rs  unit counts of the base-then-dependent charges (`dependentUnits`)
+and the per-opcode charge plan (`chargePlan`) built on the generated tables `Gen.opcodeCharge` (charge site of every
+opcode), `Gen.storageOpTable` (micro-operations of the storage opcodes) and `Gen.gasGetters` (schedule versions).
 
 Words are `Nat`; every Rust operator is mirrored explicitly (`saturating_*`, `checked_*`, plain `-`
 which panics on underflow under overflow-checks => error constructor `arith`).
@@ -28,6 +32,7 @@ inductive GasErr
   | ctxGasUnderflow     -- Bug(ContextGasUnderflow)
   | globalGasUnderflow  -- Bug(GlobalGasUnderflow)
   | unknownOpcode
+  | malformed           -- the schedule lacks a field of its version / an unknown getter or version (not reachable from Rust values)
   deriving DecidableEq, Repr, Inhabited
 
 /-- `DependentCost::base` -/
@@ -124,77 +129,225 @@ def trace (s : GasState) : List GasOp → List GasState
 
 /-! ### Schedule and per-instruction charge list -/
 
+/-- a `GasCostsValues`: its version (`V1` … `V7`) and the values of the `Word` / `DependentCost` fields of
+    `GasCostsValuesV{version}` -/
 structure Schedule where
   fixed : List (String × Nat)
   dep : List (String × DepCost)
+  version : Nat := 7
   deriving Repr, Inhabited
 
-def defaultSchedule : Schedule := ⟨Gen.defaultFixed, Gen.defaultDep⟩
+def defaultSchedule : Schedule := { fixed := Gen.defaultFixed, dep := Gen.defaultDep }
 
-def Schedule.fixedCost (sch : Schedule) (f : String) : Except GasErr Nat :=
-  match sch.fixed.lookup f with
-  | some v => .ok v
-  | none => .error .gasCostNotDefined
+/-- the arm `GasCostsValues::V{version}(v) => …` of getter `g` (fuel-tx gas.rs `impl GasCostsValues`) -/
+def Schedule.arm (sch : Schedule) (g : String) : Option GetterArm :=
+  match Gen.gasGetters.lookup g with
+  | some (_, _, arms) => if sch.version = 0 then none else arms[sch.version - 1]?
+  | none => none
 
-def Schedule.depCost (sch : Schedule) (f : String) : Except GasErr DepCost :=
-  match sch.dep.lookup f with
-  | some v => .ok v
-  | none => .error .gasCostNotDefined
+/-- a getter returning `Word` or `Result<Word, GasCostNotDefined>` -/
+def Schedule.word (sch : Schedule) (g : String) : Except GasErr Nat :=
+  match sch.arm g with
+  | some (.field f) =>
+    match sch.fixed.lookup f with
+    | some v => .ok v
+    | none => .error .malformed
+  | some .undef => .error .gasCostNotDefined
+  | _ => .error .malformed
 
-/-- `(Bytes32::LEN + WORD_SIZE)` in contract.rs/flow.rs and `BALANCE_ENTRY_SIZE` in blockchain.rs (MINT) -/
-def balanceEntrySize : Nat := 40
+/-- a getter returning `DependentCost` or `Result<DependentCost, GasCostNotDefined>`; old versions wrap a
+    `Word` field as `HeavyOperation { base, gas_per_unit: 0 }` -/
+def Schedule.depc (sch : Schedule) (g : String) : Except GasErr DepCost :=
+  match sch.arm g with
+  | some (.field f) =>
+    match sch.dep.lookup f with
+    | some v => .ok v
+    | none => .error .malformed
+  | some (.heavy0 f) =>
+    match sch.fixed.lookup f with
+    | some b => .ok (.heavy b 0)
+    | none => .error .malformed
+  | some .undef => .error .gasCostNotDefined
+  | none => .error .malformed
 
-/-- opcodes whose `execute` charges `noop()` and then a run-time dependent sequence of storage
-    micro-operation charges (storage.rs) which this model does not enumerate -/
-def storageOps : List String :=
-  ["SCWQ", "SRW", "SRWQ", "SWW", "SWWQ", "SCLR", "SRDD", "SRDI", "SWRD", "SWRI", "SUPD", "SUPI", "SPLD"]
+/-- `dependent_gas_charge(g(), units)` -/
+def Schedule.depTotal (sch : Schedule) (g : String) (units : Nat) : Except GasErr Nat :=
+  match sch.depc g with
+  | .ok d => d.resolve units
+  | .error e => .error e
+
+/-- `gas_charge(g().base())` -/
+def Schedule.depBase (sch : Schedule) (g : String) : Except GasErr Nat :=
+  match sch.depc g with
+  | .ok d => .ok d.base
+  | .error e => .error e
+
+/-- `dependent_gas_charge_without_base(g(), units)` -/
+def Schedule.depUnits (sch : Schedule) (g : String) (units : Nat) : Except GasErr Nat :=
+  match sch.depc g with
+  | .ok d => d.resolveWithoutBase units
+  | .error e => .error e
+
+/-- fuel-types bytes.rs `padded_len_word` / `padded_len_usize`: next multiple of 8, `None` on overflow -/
+def paddedLen (len : Nat) : Option Nat :=
+  if len % 8 = 0 then some len
+  else if len + (8 - len % 8) > wordMax then none
+  else some (len + (8 - len % 8))
+
+/-- opcodes whose `execute` charges `noop()` and then the storage micro-operations of storage.rs -/
+def storageOps : List String := Gen.storageOpTable.map (·.1)
+
+/-- The charges one instruction makes, in program order, and how the list ends. -/
+structure Plan where
+  charges : List Nat := []
+  /-- after `charges` the instruction fails because a schedule entry is not defined in this version
+      (`GasCostNotDefined`), or on `units_per_gas = 0` (`divByZero`, a Rust panic) -/
+  stop : Option GasErr := none
+  /-- `false`: by the run-time information the instruction cannot complete (missing contract / blob, fewer
+      reachable slots than the range asks for, update offset beyond the value, unpaddable length, invalid LDC
+      mode): it panics after a prefix of `charges` -/
+  complete : Bool := true
+  /-- `false`: the VM itself charges nothing (ECAL; its handler may) -/
+  exact : Bool := true
+  deriving Repr, Inhabited
+
+/-- next charge; nothing is added once the plan has stopped -/
+def Plan.add (p : Plan) (c : Except GasErr Nat) : Plan :=
+  match p.stop, p.complete with
+  | none, true =>
+    match c with
+    | .ok g => { p with charges := p.charges ++ [g] }
+    | .error e => { p with stop := some e }
+  | _, _ => p
+
+/-- the instruction panics here for a reason other than gas -/
+def Plan.halt (p : Plan) : Plan :=
+  match p.stop with
+  | none => { p with complete := false }
+  | some _ => p
 
 /-- surcharge `gas_charge(40 * new_storage_per_byte)` made by TR / MINT / CALL when a new balance entry is created -/
-def newEntryCharge (sch : Schedule) (flag : Nat) : Except GasErr (List Nat) :=
-  if flag = 0 then .ok []
-  else match sch.fixedCost "new_storage_per_byte" with
-    | .ok p => .ok [satMul balanceEntrySize p]
-    | .error e => .error e
+def newEntryCharge (sch : Schedule) : Except GasErr Nat :=
+  match sch.word Gen.newEntryGetter with
+  | .ok p => .ok (satMul Gen.balanceEntryBytes p)
+  | .error e => .error e
 
-/-- The charges one instruction makes, in program order, and whether the list is complete.
+def Plan.addNewEntry (p : Plan) (sch : Schedule) (flag : Nat) : Plan :=
+  if flag = 0 then p else p.add (newEntryCharge sch)
+
+/-- `[hot₀, len₀, hot₁, len₁, …]` → per accessed slot, in key order: is it in the slot cache, byte length of its value (0 = unset) -/
+def slotPairs : List Nat → List (Nat × Nat)
+  | h :: l :: rest => (h, l) :: slotPairs rest
+  | _ => []
+
+/-- length of the value a storage opcode writes; `none`: `storage_update_from_memory` rejects the offset -/
+def slenEval (args : List Nat) (oldLen : Nat) : SLen → Option Nat
+  | .const n => some n
+  | .arg i => some (args.getD i 0)
+  | .update o l =>
+    let off := if args.getD o 0 = wordMax then oldLen else args.getD o 0
+    if off > oldLen then none else some (max oldLen (off + args.getD l 0))
+
+/-- one micro-operation of storage.rs on a slot that is (`hot ≠ 0`) or is not in the slot cache and holds `len` bytes:
+    `storage_read_slot` = one dependent charge (hot / cold entry) over `len`;
+    `storage_write_slot` = `storage_write` over the new length, then `new_storage_per_byte * (new − old)` (saturating);
+    `storage_clear_slot_range` = `storage_clear` over the number of slots -/
+def slotStep (sch : Schedule) (args : List Nat) (hot len : Nat) (p : Plan) : SStep → Plan
+  | .read => p.add (sch.depTotal (if hot = 0 then Gen.storageReadColdGetter else Gen.storageReadHotGetter) len)
+  | .write l =>
+    match slenEval args len l with
+    | none => p.halt
+    | some n =>
+      (p.add (sch.depTotal Gen.storageWriteGetter n)).add
+        (match sch.word Gen.storageNewBytesGetter with
+         | .ok c => .ok (satMul c (n - len))
+         | .error e => .error e)
+  | .clear r => p.add (sch.depTotal Gen.storageClearGetter (args.getD r 0))
+
+def slotSteps (sch : Schedule) (args : List Nat) (steps : List SStep) (p : Plan) (slot : Nat × Nat) : Plan :=
+  steps.foldl (slotStep sch args slot.1 slot.2) p
+
+/-- the part of a storage opcode after its `noop()` charge -/
+def storagePlan (sch : Schedule) (op : StorageOp) (args sizes : List Nat) (p : Plan) : Plan :=
+  let slots := slotPairs sizes
+  match op.rangeArg with
+  | some r =>
+    let range := args.getD r 0
+    let used := slots.take range
+    let p1 := used.foldl (slotSteps sch args op.perSlot) p
+    if used.length < range then p1.halt else slotSteps sch args op.after p1 (0, 0)
+  | none =>
+    match slots with
+    | s :: _ => slotSteps sch args op.after p s
+    | [] =>
+      if op.after.all (fun st => match st with | .clear _ => true | _ => false) then slotSteps sch args op.after p (0, 0)
+      else p.halt
+
+/-- `gas_charge(c.base())`, then — once the size is known — `dependent_gas_charge_without_base(c, units)`;
+    `units = none`: the contract / blob does not exist, the length cannot be padded, … -/
+def Plan.baseThen (p : Plan) (sch : Schedule) (g : String) (units : Option Nat) : Plan :=
+  let p1 := p.add (sch.depBase g)
+  match units with
+  | some u => p1.add (sch.depUnits g u)
+  | none => p1.halt
+
+/-- `sizes = [exists, len, …]` → stored length of the contract / blob, if it exists -/
+def storedLen (sizes : List Nat) : Option Nat :=
+  match sizes with
+  | e :: l :: _ => if e = 0 then none else some l
+  | _ => none
+
+/-- unit count of the dependent part of CALL / LDC / CCP / CROO / CSIZ / BSIZ / BLDD, as flow.rs `prepare_call`,
+    blockchain.rs `load_contract_code` / `load_blob_code` / `load_memory_code` / `code_copy` / `code_root` /
+    `code_size` and blob.rs `blob_size` / `blob_load_data` compute it; outer `none` = no dependent charge is
+    made (LDC from memory with zero length), inner `none` = the instruction panics first -/
+def dependentUnits (mn : String) (args sizes : List Nat) : Option (Option Nat) :=
+  if mn = "CALL" then some ((storedLen sizes).bind paddedLen)                       -- `code_size_padded`
+  else if mn = "CSIZ" ∨ mn = "CROO" ∨ mn = "BSIZ" then some (storedLen sizes)          -- `len` / `size`
+  else if mn = "CCP" ∨ mn = "BLDD" then
+    some ((storedLen sizes).map (fun l => max l (args.getD 3 0)))                   -- `max(contract_len, length)`
+  else if mn = "LDC" then
+    let len := args.getD 2 0
+    match args.getD 3 0 with
+    | 0 => some ((storedLen sizes).bind (fun l => (paddedLen len).map (fun pl => max l pl)))   -- `padded_len_word(..).ok_or(MemoryOverflow)?`
+    | 1 => some ((storedLen sizes).map (fun l => max l ((paddedLen len).getD wordMax)))        -- `.unwrap_or(Word::MAX)`
+    | 2 => if len = 0 then none else some (some ((paddedLen len).getD wordMax))
+    | _ => some none                                                                -- `InvalidImmediateValue`
+  else some none
+
+/-- The charges one instruction makes, in program order.
     `args`: the operand values in `unpack()` order (register contents, or the immediate itself);
-    `sizes`: run-time sizes the schedule depends on — CALL: `[padded code size, new-entry flag]`;
-    TR/MINT: `[new-entry flag]`; LDC/CCP/CROO/CSIZ/BSIZ/BLDD: `[charge length]`. -/
-def chargeList (sch : Schedule) (mn : String) (args sizes : List Nat) : Except GasErr (List Nat × Bool) :=
+    `sizes`: run-time state the schedule depends on —
+      CALL: `[callee exists, code size, new-balance-entry flag]`; TR/MINT: `[new-entry flag]`;
+      LDC (contract / blob) / CCP / CROO / CSIZ / BSIZ / BLDD: `[exists, stored length]`;
+      storage opcodes: `[hot₀, len₀, hot₁, len₁, …]` for the slots in key order. -/
+def chargePlan (sch : Schedule) (mn : String) (args sizes : List Nat) : Plan :=
   match Gen.opcodeCharge.lookup mn with
-  | none => .error .unknownOpcode
-  | some .none => .ok ([], false)
-  | some (.fixed f) | some (.fixedOpt f) =>
-    match sch.fixedCost f with
-    | .error e => .error e
-    | .ok c =>
-      if storageOps.contains mn then .ok ([c], false)
-      else if mn = "TR" ∨ mn = "MINT" then
-        match newEntryCharge sch (sizes.getD 0 0) with
-        | .ok extra => .ok (c :: extra, true)
-        | .error e => .error e
-      else .ok ([c], true)
-  | some (.dep f i) | some (.depOpt f i) =>
-    match sch.depCost f with
-    | .error e => .error e
-    | .ok d =>
-      let u := args.getD i 0
-      let u := if mn = "ED19" ∧ u = 0 then Gen.ed19ZeroLenUnits else u
-      match d.resolve u with
-      | .ok c => .ok ([c], true)
-      | .error e => .error e
-  | some (.baseThenDep f) | some (.baseThenDepOpt f) =>
-    match sch.depCost f with
-    | .error e => .error e
-    | .ok d =>
-      match d.resolveWithoutBase (sizes.getD 0 0) with
-      | .error e => .error e
-      | .ok c2 =>
-        if mn = "CALL" then
-          match newEntryCharge sch (sizes.getD 1 0) with
-          | .ok extra => .ok (d.base :: c2 :: extra, true)
-          | .error e => .error e
-        else .ok ([d.base, c2], true)
+  | none => { stop := some .unknownOpcode }
+  | some .none => { exact := false }
+  | some (.fixed g) | some (.fixedOpt g) =>
+    let p : Plan := ({} : Plan).add (sch.word g)
+    match Gen.storageOpTable.lookup mn with
+    | some op => storagePlan sch op args sizes p
+    | none =>
+      if mn = "TR" ∨ mn = "MINT" then p.addNewEntry sch (sizes.getD 0 0) else p
+  | some (.dep g i) | some (.depOpt g i) =>
+    let u := args.getD i 0
+    let u := if mn = "ED19" ∧ u = 0 then Gen.ed19ZeroLenUnits else u
+    ({} : Plan).add (sch.depTotal g u)
+  | some (.baseThenDep g) | some (.baseThenDepOpt g) =>
+    match dependentUnits mn args sizes with
+    | none => ({} : Plan).add (sch.depBase g)
+    | some units =>
+      let p := ({} : Plan).baseThen sch g units
+      if mn = "CALL" then p.addNewEntry sch (sizes.getD 2 0) else p
+
+/-- (compatibility) the charge list and whether it is complete and exact; a stopped plan is an error -/
+def chargeList (sch : Schedule) (mn : String) (args sizes : List Nat) : Except GasErr (List Nat × Bool) :=
+  let p := chargePlan sch mn args sizes
+  match p.stop with
+  | some e => .error e
+  | none => .ok (p.charges, p.exact && p.complete)
 
 /-- gas effect of one instruction that does not fail for a reason other than gas:
     all charges, then CALL forwards `$rD`, RET/RETD credit the saved context gas back. -/
